@@ -828,12 +828,24 @@ static void builtin_alloca(void) {
 }
 
 // cmpxchg and xchg work on general registers: a float or double operand
-// is moved there bit for bit, and an old value moved back.
+// is moved there bit for bit, and an old value moved back. A struct or
+// union is evaluated to its address; the instruction needs the bytes of
+// the object (add_type admits only sizes that fit a register).
 static void flonum_to_bits(Type *ty) {
   if (ty->kind == TY_FLOAT)
     println("  movd %%xmm0, %%eax");
   else if (ty->kind == TY_DOUBLE)
     println("  movq %%xmm0, %%rax");
+  else if (ty->kind == TY_STRUCT || ty->kind == TY_UNION) {
+    if (ty->size == 1)
+      println("  movzbl (%%rax), %%eax");
+    else if (ty->size == 2)
+      println("  movzwl (%%rax), %%eax");
+    else if (ty->size == 4)
+      println("  mov (%%rax), %%eax");
+    else
+      println("  mov (%%rax), %%rax");
+  }
 }
 
 static void bits_to_flonum(Type *ty) {
